@@ -386,19 +386,14 @@ func (f *Func) reachTarget(
 			skip = true
 
 		case *typedArgVertex:
-			if v.Value.IsValid() {
+			// A typed argument that already carries a value is used as-is,
+			// provided the value was chosen under the name preference we are
+			// reached with: otherwise our own search could choose another
+			// supplied value. (When planning for Redefine the values are
+			// placeholders for the inputs and always do.)
+			if v.Value.IsValid() && (redefine || v.ValueFor == state.affinityKey()) {
 				skip = true
 				argMap[graph.VertexID(out)] = v.Value
-
-				// The value was put there for this target, by the walk of
-				// the path that led here. It must not be taken for the
-				// argument of whoever needs this type next: that one makes
-				// its own choice, under its own name preference. (When
-				// planning for Redefine the values are placeholders for the
-				// inputs and stay.)
-				if !redefine {
-					v.Value = reflect.Value{}
-				}
 			}
 
 		case *valueVertex:
@@ -610,6 +605,7 @@ func (f *Func) reachTarget(
 					// The value of this is the last value vertex we saw. The graph
 					// walk should ensure this is the correct type.
 					v.Value = state.Value
+					v.ValueFor = state.affinityKey()
 				}
 
 				// Setup our mapping so that we know that this wildcard
@@ -674,12 +670,6 @@ func (f *Func) reachTarget(
 		// We store the final value in the input map.
 		log.Trace("final value", "vertex", path[len(path)-1], "value", finalValue.Interface())
 		argMap[graph.VertexID(path[len(path)-1])] = finalValue
-
-		// Likewise, a typed argument we just resolved for this target is
-		// not the value of that type for anybody else.
-		if v, ok := path[len(path)-1].(*typedArgVertex); ok && !redefine {
-			v.Value = reflect.Value{}
-		}
 	}
 
 	// Reached our goal
@@ -771,6 +761,14 @@ type callState struct {
 	// produced, outermost first. Values with these names are preferred as
 	// inputs of the converters on the way there.
 	Affinity []string
+}
+
+// affinityKey renders the current name preference as a comparable value.
+func (s *callState) affinityKey() string {
+	if len(s.Affinity) == 0 {
+		return ""
+	}
+	return fmt.Sprintf("%q", s.Affinity)
 }
 
 func newCallState() *callState {
